@@ -40,7 +40,7 @@ DATETIME_STR = ["2018-01-02T10:30:00", "2018-01-02T10:30:00Z", "2018-01-02T10:30
 
 SCALAR_KINDS = ["int", "float", "bool", "null", "plain", "hostile", "long", "many", "intstr", "floatstr", "boolstr",
                 "date", "time", "datetime", "bigint", "intfloat", "boolnear", "nearmiss"]
-CONTAINER_KINDS = ["list", "obj", "emptyobj", "emptylist", "nulllist", "mix", "listobj", "nested_list", "mapobj"]
+CONTAINER_KINDS = ["list", "obj", "emptyobj", "emptylist", "nulllist", "mix", "listobj", "nested_list", "mapobj", "ragged"]
 
 
 def fold(k: str) -> str:
@@ -193,6 +193,32 @@ class Schema:
             return rng.choice(TIME_STR)
         if k == "datetime":
             return rng.choice(DATETIME_STR)
+        if k == "ragged":
+            # ragged nested lists: the same scalars with nulls placed at different nesting levels in sibling sub-lists
+            # (structurally different unions that flat string encodings of a type may confuse)
+            pool = rng.choice([[True, 1], [1, 2.5], ["a", 1], [True, "x"], [1, 2.5, "s"]])
+
+            def sub(d):
+                items = list(pool) if rng.random() < 0.7 else [rng.choice(pool)]
+                if rng.random() < 0.5:
+                    items.append(None)
+                if d > 0 and rng.random() < 0.6:
+                    items.append(sub(d - 1))
+                if rng.random() < 0.3:
+                    items.append(rng.choice([2.5, "t", False]))
+                rng.shuffle(items)
+                return items
+            if rng.random() < 0.6:
+                # a pair that differs only in the nesting level at which one element sits: [[a, b], X, c] vs [[a, b, X], c]
+                x = rng.choice([None, None, rng.choice(pool), "t", 2.5])
+                c = rng.choice([2.5, "u", False, 7])
+                inner = list(pool)
+                pair = [[list(inner), x, c], [list(inner) + [x], c]]
+                if rng.random() < 0.5:
+                    pair.reverse()
+                extra = [sub(1)] if rng.random() < 0.3 else []
+                return pair + extra
+            return [sub(rng.randint(1, 2)) for _ in range(rng.randint(1, 3))]
         if k == "emptyobj":
             return {}
         if k == "emptylist":
